@@ -18,7 +18,7 @@ from ..common import rng_for, b2j
 
 LEVEL = "exploration"
 SHARDS = {"quick": 1, "thorough": 16}
-REQUIRED = ("patterns_built", "regexps_built", "corpus_strings_judged", "equal_and_matched", "unequal_and_rejected_by_regexp",
+REQUIRED = ("bits_patterns_enumerated", "bits_matching_bytes_judged", "patterns_built", "regexps_built", "corpus_strings_judged", "equal_and_matched", "unequal_and_rejected_by_regexp",
             "filter_equivalence_checked", "patterns_all_any", "patterns_with_bits_partially_fixed", "patterns_with_constrained_any",
             "patterns_with_any_size_field", "metachar_values_fixed")
 MIN_NONTRIVIAL = 150
@@ -265,9 +265,86 @@ def one_source(run, bench, rng, raw, mr, corpus_base):
                           dict(witness, regexp=b2j(rx.pattern)), None)
 
 
+def compositions(total):
+    if total == 0:
+        yield []
+        return
+    for first in range(1, total + 1):
+        for rest in compositions(total - first):
+            yield [first] + rest
+
+
+def bits_part(run, rng, quick):
+    """Bit-field patterns, enumerated: every composition of 8 bits into consecutive Bits fields x subsets of
+    fixed members x every value of the fixed members; the derived regexp is matched against all 256
+    first bytes.  Soundness per byte: if the byte carries the fixed bits, the regexp must match."""
+    from bisturi.pattern_matching import Any
+    shard, nshards = run.shard
+    d = common.scratch_dir("bvf_c18b_")
+    comps = [c for c in compositions(8) if 2 <= len(c) <= 8]
+    comps = [c for i, c in enumerate(comps) if i % nshards == shard]
+    all_bytes = [bytes([b, 0x5A]) for b in range(256)]
+    for ci in range(0, len(comps), 8):
+        chunk = comps[ci:ci + 8]
+        src = [render.HEADER]
+        for n, widths in enumerate(chunk):
+            src.append("class B%d(Packet):" % (ci + n))
+            for k, w in enumerate(widths):
+                src.append("    b%d = Bits(%d)" % (k, w))
+            src.append("    t = Int(1)")
+            src.append("")
+        module, path = render.load_source("\n".join(src), d)
+        for n, widths in enumerate(chunk):
+            cls = getattr(module, "B%d" % (ci + n))
+            k = len(widths)
+            shifts = []
+            acc = 8
+            for w in widths:
+                acc -= w
+                shifts.append(acc)
+            subsets = [(i,) for i in range(k)] + [tuple(j for j in range(k) if j != i) for i in range(k) if k > 2]
+            for _ in range(3):
+                subsets.append(tuple(sorted(rng.sample(range(k), rng.randint(1, k - 1)))))
+            for sub in sorted(set(subsets)):
+                nbits = sum(widths[i] for i in sub)
+                combos = 1 << nbits
+                step = max(1, combos // 128)
+                for combo in range(0, combos, step):
+                    # distribute combo bits over the fixed members
+                    vals = {}
+                    rest = combo
+                    for i in reversed(sub):
+                        vals[i] = rest & ((1 << widths[i]) - 1)
+                        rest >>= widths[i]
+                    pkt = cls()
+                    for i in range(k):
+                        setattr(pkt, "b%d" % i, vals[i] if i in vals else Any())
+                    pkt.t = Any()
+                    try:
+                        rx = pkt.as_regular_expression()
+                    except Exception as e:
+                        run.violation("as_regular_expression() raised %s for a bit-field pattern" % type(e).__name__,
+                                      {"widths": widths, "fixed": {("b%d" % i): v for i, v in vals.items()}}, None)
+                        return
+                    run.count("bits_patterns_enumerated")
+                    fixed_mask = sum(((1 << widths[i]) - 1) << shifts[i] for i in sub)
+                    fixed_val = sum(vals[i] << shifts[i] for i in sub)
+                    for b, s in enumerate(all_bytes):
+                        if (b & fixed_mask) == fixed_val:
+                            run.count("bits_matching_bytes_judged")
+                            if not rx.match(s):
+                                run.violation("the regexp derived for a partly fixed bit-field byte rejects a byte that carries the fixed bits",
+                                              {"widths": widths, "fixed": {("b%d" % i): v for i, v in vals.items()}, "byte": b,
+                                               "regexp": b2j(rx.pattern), "source": "\n".join(src)}, None)
+                                return
+                    run.case(key=("bits", tuple(widths), sub, combo), nontrivial=True, n=0)
+    common.drop_scratch(d)
+
+
 def run(run):
     shard, nshards = run.shard
     rng = rng_for(run.seed, "c18", shard)
+    bits_part(run, rng, run.tier == "quick")
     nfam = 330 if run.tier == "quick" else 1500
     profile = {"flat": True, "allow_regex_nokeep_single": False, "allow_regex_nokeep_multi": False, "max_fields": 6,
                "p_class_align": 0.0}
